@@ -197,7 +197,7 @@ func init() {
 		c.group("roundtrips", "c13rt", "judge_C13_roundtrip")
 		c.shard(40)
 		m := c.size(120, 3000)
-		strs := []string{"hello", "", "a b", "é ü", "😀 𝔘", " hello", "hello ", "  ref-001  ", " ", "\\ttab", "with \\\"quote\\\"", "1/2", "USD 10", "50%", "tab\\tno", "<kept>", "line", "ends\\\""}
+		strs := []string{"hello", "", "a b", "é ü", "😀 𝔘", " hello", "hello ", "  ref-001  ", " ", "\\ttab", "bell\a", "vt\vx", "\x01", "esc\x1b[0m", "del\x7f", "\U000e0001", "with \\\"quote\\\"", "1/2", "USD 10", "50%", "tab\\tno", "<kept>", "line", "ends\\\""}
 		for i := 0; i < m; i++ {
 			r := root.Fork()
 			var v rtValue
